@@ -765,7 +765,11 @@ def long_line_cases(rng, n, tier):
     for i in range(n):
         edges = LINE_EDGES + (LINE_EDGES_4K if tier != "quick" and i % 14 == 0 else [])
         rel, line, crlf, listed, pool, shape = long_line(rng, edges, kmax=60 if tier == "quick" or i % 8 else 100)
-        files = [xl(xb(b"public/" + rel), xb(content(line, rel, rng, True, crlf=crlf)))]
+        data = content(line, rel, rng, True, crlf=crlf)
+        if i % 7 == 3:
+            # a BIG guarded file (the marker stands right after the line and once more at the very end)
+            data += b" filler" * (rng.choice([5000, 9000, 20000]) // 7) + b" " + data[data.index(b"SECRET:"):data.index(b";") + 1]
+        files = [xl(xb(b"public/" + rel), xb(data))]
         tgt = (b"/" + rel, "long", rel, listed, line)
         sps = [(b"/" + rel, tgt)] + ([(encode(b"/" + rel, rng.getrandbits(len(rel)), rng), tgt)] if rng.random() < 0.5 else [])
         twins = []
@@ -775,7 +779,7 @@ def long_line_cases(rng, n, tier):
             other = rng.choice(pool)
             ops.append(greq(b"/" + rel, addr=(V6 if b":" in other else V4)(other.decode())))
             ops.append(greq(b"/" + rel, addr=rng.choice(STRANGERS)))
-        cases += mk(rng, files, ops, "long-line/" + shape, both=(i % 3 == 0), twins=[(a, b_, "a" if k_ == "a" else "h") for a, b_, k_ in twins])
+        cases += mk(rng, files, ops, ("big-file/" if i % 7 == 3 else "long-line/") + shape, both=(i % 3 == 0), twins=[(a, b_, "a" if k_ == "a" else "h") for a, b_, k_ in twins])
     return cases
 
 
@@ -786,7 +790,11 @@ def long_line_wire_cases(rng, n):
     for i in range(n):
         edges = [65536 + (i // 6) % 2] if i % 6 == 0 else (LINE_EDGES_4K + LINE_EDGES_BIG) if i % 2 == 0 else (LINE_EDGES[3:] + LINE_EDGES_4K)
         rel, line, crlf, listed, pool, shape = long_line(rng, edges, near=False)
-        files = [xl(xb(b"public/" + rel), xb(content(line, rel, rng, True, crlf=crlf)))]
+        data = content(line, rel, rng, True, crlf=crlf)
+        if i % 4 == 1:
+            # a BIG guarded file (the marker stands right after the line and once more at the very end)
+            data += b" filler" * (rng.choice([70000, 300000]) // 7) + b" " + data[data.index(b"SECRET:"):data.index(b";") + 1]
+        files = [xl(xb(b"public/" + rel), xb(data))]
         hidden, allow = _py_guard(rel, line + b"\n")
         ops = []
         who = [rng.choice(SAME_AS_1) if listed == 1 else listed] + [rng.choice(ADDRS[2:] + STRANGERS) for _ in range(3)]
@@ -806,7 +814,7 @@ def long_line_wire_cases(rng, n):
                 # (cache-control of the refused answer is allow-ips' own; status and body must be those of the missing page)
                 ops.append(wreq(sp, m, a, h, b"", 0))
         cases.append(Case("guards.wire", pipe.scenario(pipe.cfg(cache=rng.random() < 0.8, fcache=rng.random() < 0.7, files=files, default_ext=False), ops),
-                          "guards.wire", {"kind": "wire/long-line/%dk" % (len(line) // 1000)}))
+                          "guards.wire", {"kind": "wire/%s/%dk" % ("big-file" if i % 4 == 1 else "long-line", len(line) // 1000)}))
     return cases
 
 
